@@ -268,7 +268,7 @@ def history_case(ctx, i, rng, ffp):
             ctx.skip("fresh graph raised")
             break
         fa = M.snapshot_poses(fresh)
-        same = outcome == "returned" and all(len(p) == len(q) and all((x == y) or (x != x and y != y) or abs(x - y) <= 1e-12 * max(1.0, abs(x)) for x, y in zip(p, q)) for p, q in zip(after, fa))
+        same = outcome == "returned" and all(len(p) == len(q) and all((x == y) or (x != x and y != y) or abs(x - y) <= 1e-9 * max(1.0, abs(x)) for x, y in zip(p, q)) for p, q in zip(after, fa))
         ctx.check("same-as-fresh-graph-in-same-state", same, feats, {"history": hist, "outcome": outcome}, case)
         hist.append("optimize(%s)" % kw)
         if not all(math.isfinite(x) for p in after for x in p):
